@@ -122,10 +122,22 @@ type Conn struct {
 	OnWrite func(all []byte) []Chunk
 
 	// Gate, when non-nil, is waited on inside Write (outside the lock, inside
-	// the in-flight window) before the bytes are accepted.
-	Gate chan struct{}
-	// Dawdle makes Write yield/sleep inside its in-flight window.
-	Dawdle time.Duration
+	// the in-flight window) before the bytes are accepted. GateIf restricts the
+	// gate to writes it selects; Gated is signalled when a write is held.
+	Gate   chan struct{}
+	GateIf func(p []byte) bool
+	Gated  chan struct{}
+	// Dawdle makes Write sleep inside its in-flight window; DawdleFn is called there.
+	Dawdle   time.Duration
+	DawdleFn func()
+	// Peer, when set, receives every accepted write on its read side (duplex pipe).
+	Peer *Conn
+	// ReadMax, when set, bounds the bytes returned by one Read.
+	ReadMax func() int
+	// SeqReports: write-side operations out of the SetWriteDeadline/Write pattern.
+	SeqReports []string
+	lastWS     OpKind
+	hasLastWS  bool
 
 	inWrite  int
 	Overlaps []string // overlap monitor reports
@@ -203,6 +215,11 @@ func (c *Conn) Read(p []byte) (int, error) {
 		c.cond.Wait()
 	}
 	ch := &c.script[c.si]
+	if c.ReadMax != nil && len(p) > 0 {
+		if m := c.ReadMax(); m > 0 && m < len(p) {
+			p = p[:m]
+		}
+	}
 	n := copy(p, ch.Data[c.off:])
 	c.off += n
 	var err error
@@ -229,19 +246,33 @@ func (c *Conn) Write(p []byte) (int, error) {
 		c.Overlaps = append(c.Overlaps, fmt.Sprintf("Write(%d bytes) entered while another Write is in flight", len(p)))
 	}
 	c.inWrite++
-	gate, dawdle := c.Gate, c.Dawdle
+	gate, dawdle, dfn := c.Gate, c.Dawdle, c.DawdleFn
+	if gate != nil && c.GateIf != nil && !c.GateIf(p) {
+		gate = nil
+	}
+	gated := c.Gated
 	c.mu.Unlock()
 	if gate != nil {
+		if gated != nil {
+			select {
+			case gated <- struct{}{}:
+			default:
+			}
+		}
 		<-gate
 	}
 	if dawdle > 0 {
 		time.Sleep(dawdle)
 	}
+	if dfn != nil {
+		dfn()
+	}
 	c.mu.Lock()
-	defer c.mu.Unlock()
 	c.inWrite--
+	c.lastWS, c.hasLastWS = OpWrite, true
 	if c.closed {
 		c.log(Op{Kind: OpWrite, Want: len(p), Err: ErrClosed})
+		c.mu.Unlock()
 		return 0, ErrClosed
 	}
 	if fk := c.fault(OpWrite); fk != FaultNone {
@@ -252,15 +283,22 @@ func (c *Conn) Write(p []byte) (int, error) {
 			c.out = append(c.out, p[:n]...)
 		}
 		c.log(Op{Kind: OpWrite, Want: len(p), Data: append([]byte(nil), p[:n]...), Err: err})
+		c.mu.Unlock()
 		return n, err
 	}
+	cp := append([]byte(nil), p...)
 	c.out = append(c.out, p...)
-	c.log(Op{Kind: OpWrite, Want: len(p), Data: append([]byte(nil), p...)})
+	c.log(Op{Kind: OpWrite, Want: len(p), Data: cp})
 	if c.OnWrite != nil {
 		if more := c.OnWrite(c.out); len(more) > 0 {
 			c.script = append(c.script, more...)
 			c.cond.Broadcast()
 		}
+	}
+	peer := c.Peer
+	c.mu.Unlock()
+	if peer != nil && len(cp) > 0 {
+		peer.Feed(Chunk{Data: cp})
 	}
 	return len(p), nil
 }
@@ -270,6 +308,12 @@ func (c *Conn) deadline(k OpKind, t time.Time) error {
 	defer c.mu.Unlock()
 	if k == OpSetWriteDeadline && c.inWrite > 0 {
 		c.Overlaps = append(c.Overlaps, "SetWriteDeadline entered while a Write is in flight")
+	}
+	if k == OpSetWriteDeadline {
+		if c.hasLastWS && c.lastWS == OpSetWriteDeadline {
+			c.SeqReports = append(c.SeqReports, "two SetWriteDeadline calls with no Write between them (a foreign deadline slipped between a frame's deadline and its Write)")
+		}
+		c.lastWS, c.hasLastWS = OpSetWriteDeadline, true
 	}
 	if fk := c.fault(k); fk != FaultNone {
 		err := fk.Err()
@@ -305,8 +349,16 @@ func (c *Conn) Close() error {
 	c.closed = true
 	c.CloseCount++
 	c.log(Op{Kind: OpClose, Err: err})
+	peer := c.Peer
 	c.mu.Unlock()
 	c.cond.Broadcast()
+	if peer != nil {
+		// the other end sees end-of-stream once it has drained what was sent
+		peer.mu.Lock()
+		peer.Block = false
+		peer.mu.Unlock()
+		peer.cond.Broadcast()
+	}
 	return err
 }
 
@@ -350,6 +402,21 @@ func (c *Conn) OverlapReports() []string {
 	c.mu.Lock()
 	defer c.mu.Unlock()
 	return append([]string(nil), c.Overlaps...)
+}
+
+// SeqViolations returns the write-side sequencing reports.
+func (c *Conn) SeqViolations() []string {
+	c.mu.Lock()
+	defer c.mu.Unlock()
+	return append([]string(nil), c.SeqReports...)
+}
+
+// NewPipe returns two connected blocking conns.
+func NewPipe() (a, b *Conn) {
+	a, b = New(nil), New(nil)
+	a.Block, b.Block = true, true
+	a.Peer, b.Peer = b, a
+	return
 }
 
 // Consumed returns how many script bytes have been handed to Read callers.
